@@ -313,8 +313,10 @@ def probes(rep, r, n):
                 cov[:, :r.randint(1, max(1, nx // 3))] = True
             else:
                 cov[r.randrange(ny):, r.randrange(nx):] = True
-        if r.random() < 0.3:
+        if r.random() < 0.45:
             img[r.randrange(ny), r.randrange(nx)] = r.choice([np.nan, np.inf, -np.inf])
+            if cov is not None and r.random() < 0.5:
+                mask = None                         # coverage mask alone + automatically masked non-finite pixels
         Be, Re = bkgs[k % len(bkgs)], rmss[(k // len(bkgs)) % len(rmss)]
         interp_name = r.choice(['zoom', 'zoom', 'idw'])
         fs = r.choice([(1, 1), (3, 3), (3, 3), (5, 3), (1, 3)])
@@ -339,6 +341,7 @@ def probes(rep, r, n):
               'filter_size': list(fs), 'filter_threshold': fthr, 'sigma': sigma, 'bkg_estimator': Be.__name__, 'bkgrms_estimator': Re.__name__,
               'interpolator': interp_name, 'bottleneck': bn_on}
         tag = f'{Be.__name__}:{Re.__name__}:{interp_name}'
+        cov0, mask0 = (None if cov is None else cov.copy()), (None if mask is None else mask.copy())
         with bottleneck(bn_on) as active:
             if not active:
                 continue
@@ -368,6 +371,9 @@ def probes(rep, r, n):
             rep.case(('probe', img.tobytes(), by, bx, tag, fs, pct), True, kind=f'probe:{tag}')
             rep.probe_only += 1
             ok = True
+            if (cov is not None and not np.array_equal(cov, cov0)) or (mask is not None and not np.array_equal(mask, mask0)):
+                rep.violation(f'input-mask-modified:{tag}', "Background2D modified the caller's mask / coverage_mask", rp)
+                continue
             if bg.shape != img.shape or rms.shape != img.shape:
                 rep.violation(f'map-shape:{tag}', f'map shape {bg.shape}/{rms.shape} != data shape {img.shape}', rp)
                 continue
@@ -382,6 +388,23 @@ def probes(rep, r, n):
             if inside.size and not (inside.min() >= lo - 1e-9 * max(1, abs(lo)) and inside.max() <= hi + 1e-9 * max(1, abs(hi))):
                 rep.violation(f'map-outside-mesh-range:{tag}', f'background map range [{inside.min()}, {inside.max()}] leaves the mesh range [{lo}, {hi}]', rp)
                 continue
+            # automatically masked non-finite pixels behave exactly like explicitly masked ones (and leave the caller's masks alone)
+            nonfin = ~np.isfinite(img)
+            if nonfin.any() and not (cov is not None and cov[nonfin].all()):
+                m2 = nonfin.copy() if mask is None else (mask | nonfin)
+                cov_snap = None if cov is None else cov.copy()
+                try:
+                    _, bg3, rms3, mesh3, _ = build(np.where(nonfin, 0.0, img), mask=m2)
+                    if not (np.array_equal(bg, bg3) and np.array_equal(rms, rms3) and np.array_equal(mesh, mesh3)):
+                        rep.violation(f'nonfinite-not-like-masked:{tag}', 'a non-finite pixel gives other maps than the same pixel masked explicitly '
+                                      f'(max |difference| {float(np.max(np.abs(bg - bg3))):.4g})', rp)
+                        continue
+                except Exception as e:                          # noqa: BLE001
+                    rep.violation(f'nonfinite-not-like-masked-raises:{type(e).__name__}:{tag}', f'explicitly masked non-finite pixels made the call raise {e!r}', rp)
+                    continue
+                if cov is not None and not np.array_equal(cov, cov_snap):
+                    rep.violation(f'coverage-mask-modified:{tag}', "Background2D modified the caller's coverage_mask", rp)
+                    continue
             # mask-blindness: overwrite the values under the masks
             total = np.zeros((ny, nx), bool)
             if mask is not None:
